@@ -480,7 +480,9 @@ func (vc *VC) ifaceEq(x, y string) string {
 		return eq(x, y)
 	}
 	vc.declareRaw("iface_eq", "(declare-fun iface_eq (Iface Iface) Bool)")
-	vc.assume("(=> (iface_eq " + x + " " + y + ") (= (i_tid " + x + ") (i_tid " + y + ")))")
+	if !strings.Contains(x+y, "q_") {
+		vc.assume("(=> (iface_eq " + x + " " + y + ") (= (i_tid " + x + ") (i_tid " + y + ")))")
+	}
 	return "(or (= " + x + " " + y + ") (iface_eq " + x + " " + y + "))"
 }
 
